@@ -59,6 +59,12 @@ def eval_history(arg):
         U.FineGrainedBuildManager.update = update
     U._vp_acc = acc
 
+    # histories with file-level edits (imports become unresolved and resolved again) run with a low error limit: the
+    # "skipping most remaining errors due to unresolved imports" logic is then live, in the daemon and in the oracle
+    # (tried: `--soft-error-limit=N` here. Under a low limit the daemon and a fresh run differ in BOTH directions on the
+    # unchanged tree - the "skipping most remaining errors due to unresolved imports" state is per update in the daemon -
+    # so that configuration is not part of the check; see DESIGN.md section 8, C03)
+    extra: list = []
     root = mypyrun.scratch("c03")
     dcache = mypyrun.scratch("c03dc")
     recs = []
@@ -68,7 +74,7 @@ def eval_history(arg):
         proj = histrun.Project(root)
 
         def new_server():
-            opts = process_start_options(DFLAGS + ["--cache-dir", dcache], allow_sources=False)
+            opts = process_start_options(DFLAGS + extra + ["--cache-dir", dcache], allow_sources=False)
             return Server(opts, os.path.join(dcache, "status.json"))
 
         def dcheck(server, targets):
@@ -103,8 +109,8 @@ def eval_history(arg):
             # oracle in another process
             cdir = mypyrun.scratch("c03cold")
             try:
-                mypyrun.seed_for(histrun.COMMON, "c03").copy_to(cdir)
-                full = histrun.run_fresh(root, targets, [], cdir)
+                mypyrun.seed_for(histrun.COMMON + extra, "c03").copy_to(cdir)
+                full = histrun.run_fresh(root, targets, extra, cdir)
             finally:
                 mypyrun.rmtree(cdir)
             if "crash" in d:
